@@ -143,6 +143,8 @@ def run(tier, seed):
     tmp2 = scratch_dir("nv-c05b-")
     try:
         tlsextra.fingerprint_collision_cases(res, tmp2, "C05")
+        # "its SHA-256 DER fingerprint": the presented certificate is the leaf, also when the client sends further certificates along
+        tlsextra.fingerprint_plumbing_cases(res, tmp2, "C05")
     finally:
         shutil.rmtree(tmp2, ignore_errors=True)
     # the fingerprint string itself: real get_certificate_fingerprint vs Model/Certs.v on hashlib's digest of the DER bytes
